@@ -340,6 +340,10 @@ func bsigRun(args []string) error {
 						h.Add("Variant-Key", "en")
 						h.Add("Vary", "Accept-Language")
 					}
+					// a response that already declares a content coding of its own: the integrity coding is added on top of it
+					if si%3 == 2 && i == 1 {
+						h.Add("Content-Encoding", "gzip")
+					}
 					if si%2 == 1 && i == 2 {
 						h.Add("Variants", "Accept-Encoding;gzip;br, Accept-Language;en")
 						h.Add("Link", "<https://c.example/s.css>;rel=preload")
@@ -352,6 +356,7 @@ func bsigRun(args []string) error {
 				for _, e := range b.Exchanges {
 					ctx.urls = append(ctx.urls, e.Request.URL.String())
 				}
+				b0 := cloneBundle(b) // the bundle before anybody signed it
 				var signed []map[string]interface{}
 				expect := []int{-1, -1, -1}
 				chains := []int{}
@@ -482,6 +487,39 @@ func bsigRun(args []string) error {
 					tam("authority replaced", func(x *bundle.Bundle) {
 						x.Signatures.Authorities[0] = &certurl.AugmentedCertificate{Cert: newKeyCert("p256", []string{hostA}, 0).certs[0], OCSPResponse: []byte("o")}
 					})
+				}
+				// two EDITIONS of one signed base: a bundle signed by a publisher (chain of three certificates, vouching for nothing
+				// here) is read from its file; two programs' worth of work then happens on it in one process - edition A gets a
+				// signer for host A, edition B another signer that vouches for nothing - both through the Signatures value the
+				// reader returned.  Edition A, looked at again after edition B was signed, is still a bundle whose every vouched
+				// subset points at its own signer's leaf certificate and whose host-A exchange verifies.
+				if si == 0 {
+					z9 := &bsigner{"z9", []*keyCert{newKeyCert("p256", []string{"z.example"}, 0), newKeyCert("p256", []string{"ca9.example"}, 20), newKeyCert("p256", []string{"root9.example"}, 40)}, map[string]bool{"z.example": true}}
+					var esigned []map[string]interface{}
+					signInPlace = false
+					if base, err := signStep(b0, z9, time.Unix(date, 0), time.Duration(dur)*time.Second, rs, &esigned); err == nil {
+						if bf, _, werr, _ := writeBundle(base, "plain"); werr == nil {
+							if rb, verdict := readBundle(bf); verdict == "ok" {
+								edA, edB := cloneBundle(rb), cloneBundle(rb)
+								edA.Signatures, edB.Signatures = rb.Signatures, rb.Signatures // what the reader returned, shared
+								signInPlace = true
+								nA, errA := signStep(edA, s1, time.Unix(date, 0), time.Duration(dur)*time.Second, rs, &esigned)
+								if errA == nil {
+									ctx.verifyEvent(cloneBundle(nA), mid, 0, esigned, true, []int{1, -1, -1}, []int{3, 1}, orig, "edition A of a signed base, right after it was signed", nil)
+									if nB, errB := signStep(edB, s5, time.Unix(date, 0), time.Duration(dur)*time.Second, rs, &esigned); errB == nil {
+										ctx.verifyEvent(cloneBundle(nA), mid, 0, esigned, true, []int{1, -1, -1}, []int{3, 1, 1}, orig, "edition A of a signed base, looked at again after edition B was signed", nil)
+										ctx.verifyEvent(cloneBundle(nB), mid, 0, esigned, false, []int{-1, -1, -1}, []int{3, 1, 1}, orig, "edition B of a signed base", nil)
+										if fa, _, werr, _ := writeBundle(nA, "plain"); werr == nil {
+											if ra, v := readBundle(fa); v == "ok" {
+												ctx.verifyEvent(ra, mid, 0, esigned, true, []int{1, -1, -1}, []int{3, 1, 1}, orig, "edition A of a signed base, written and read after edition B was signed", fa)
+											}
+										}
+									}
+								}
+								signInPlace = false
+							}
+						}
+					}
 				}
 				// signed-subsets the KEY HOLDER signed with timestamps SignedSubset.Encode never writes (CBOR unsigned integers
 				// up to 2^64-1, far past and far future): the signature is genuine, so only the verifier's own rules about
